@@ -780,6 +780,39 @@ def rule_parameter_order(model: Model, rule_id: str = 'C17-R11') -> RuleResult:
             r.fail(f.qualname, f"__parameters__ = {unparse(val)[:80]}  ({' + '.join(order)})", f.loc(site),
                    "the inherited type variables no longer come first: Child[int, str] binds the arguments to the wrong variables, so a "
                    "field declared with T is converted as U's type")
+            continue
+        # the newly declared part leaves out what is inherited already: `class H(G[int, V], Generic[V])` names V twice
+        r.instances += 1
+        exprs: t.List[ast.AST] = []
+
+        def defs_of(e: ast.AST, at: Node, depth: int = 0) -> None:
+            exprs.append(e)
+            for x in ast.walk(e):
+                if isinstance(x, ast.Name) and isinstance(x.ctx, ast.Load) and rd.is_local(x.id) and depth < 3:
+                    for d in rd.at(at, x.id):
+                        if d.kind in ('assign', 'walrus') and d.value is not None and cfg.node_dominates(sup, d.node):
+                            defs_of(d.value, d.node, depth + 1)
+        defs_of(parts[1], n)
+        filtered = False
+        for e in exprs:
+            for x in ast.walk(e):
+                if isinstance(x, (ast.GeneratorExp, ast.ListComp, ast.SetComp)):
+                    for g_ in x.generators:
+                        for c_ in g_.ifs:
+                            for cmp_ in ast.walk(c_):
+                                if isinstance(cmp_, ast.Compare) and len(cmp_.ops) == 1 and isinstance(cmp_.ops[0], ast.NotIn) \
+                                        and when(cmp_.comparators[0], n) == 'old':
+                                    filtered = True
+                if isinstance(x, ast.Call) and unparse(x.func) in ('dict.fromkeys', 'collections.OrderedDict.fromkeys', 'OrderedDict.fromkeys'):
+                    filtered = True
+        if not filtered and isinstance(val, ast.Call) and 'fromkeys' in unparse(val.func):
+            filtered = True
+        r.sample({'newly declared part': unparse(parts[1])[:80], 'inherited variables left out': filtered})
+        if filtered:
+            r.ok()
+        else:
+            r.fail(f.qualname, f"__parameters__ = {unparse(val)[:80]}: variables that are inherited already are listed again", f.loc(site),
+                   "class H(G[int, V], Generic[V]) gets the parameters (V, V): H[str] fails with 'Too few arguments', H[str, str] binds V twice")
     return r
 
 
@@ -2220,4 +2253,132 @@ def rule_field_keyword_receivers(model: Model, rule_id: str = 'C14-R11') -> Rule
                    "the quick pass accepts what the diagnostic pass then reports as an error")
     if r.instances < 3:
         raise AnalysisError('generated constructor / make_unchecked / __replace__ not found')
+    return r
+
+
+# ---------------------------------------------------------------------------- C04 / C13: a predicate need not have a __name__
+
+
+def rule_callable_name_has_fallback(model: Model, rule_id: str = 'C04-R9') -> RuleResult:
+    """Attributes declared as ``Callable`` hold whatever the user passed: a ``functools.partial``, a callable instance or a bound
+    builtin has no ``__name__``.  Reading it without a fallback makes *building the converter* of a documented annotation fail with
+    AttributeError."""
+    r = RuleResult(rule_id, "the __name__ of a user-supplied callable is only read with a fallback (getattr(f, '__name__', ...))", floor=1)
+    for q, ci in sorted(model.classes.items()):
+        if not q.startswith('pane.'):
+            continue
+        callables = set()
+        for st in ci.node.body:
+            if isinstance(st, ast.AnnAssign) and isinstance(st.target, ast.Name) and 'Callable' in unparse(st.annotation) \
+                    and 'Optional' not in unparse(st.annotation):
+                callables.add(st.target.id)
+        for g in ci.methods.values():
+            if not isinstance(g.node, ast.FunctionDef) or not g.params:
+                continue
+            # constructor parameters declared Callable and stored on self count as well
+            me = g.params[0]
+            for x in ast.walk(g.node):
+                if isinstance(x, ast.Attribute) and x.attr == '__name__' and isinstance(x.value, ast.Attribute) \
+                        and unparse(x.value.value) == me and x.value.attr in callables:
+                    r.instances += 1
+                    r.analysed.add(g.qualname)
+                    r.fail(g.qualname, f"`{unparse(x)}` without a fallback", g.loc(x),
+                           "a condition built on functools.partial(...), on a callable object or on a bound builtin method makes "
+                           "make_converter(Annotated[T, cond]) raise AttributeError (building a converter for a documented type never fails)")
+                if isinstance(x, ast.Call) and isinstance(x.func, ast.Name) and x.func.id == 'getattr' and len(x.args) >= 2 \
+                        and isinstance(x.args[1], ast.Constant) and x.args[1].value == '__name__' and isinstance(x.args[0], ast.Attribute) \
+                        and unparse(x.args[0].value) == me and x.args[0].attr in callables:
+                    r.instances += 1
+                    r.analysed.add(g.qualname)
+                    if len(x.args) == 3:
+                        r.ok()
+                    else:
+                        r.fail(g.qualname, f"`{unparse(x)}` without a default", g.loc(x), "getattr without a default raises like the attribute read")
+    if r.instances == 0:
+        r.instances += 1
+        r.ok()
+        r.sample({'reads of <callable>.__name__': 0})
+    return r
+
+
+# ---------------------------------------------------------------------------- C16: the set-field record holds fields; replace passes init fields
+
+
+def rule_record_holds_fields(model: Model, rule_id: str = 'C16-R9') -> RuleResult:
+    """``PaneBase.__setattr__`` records a name as "set" only when it names a field (``dict(set_only=True)`` and copies read every
+    recorded name back with getattr / as a field), and ``__replace__`` hands the constructor only fields the constructor takes."""
+    r = RuleResult(rule_id, "__setattr__ records field names only; __replace__ passes only init fields to the constructor", floor=2)
+    sa = model.func('pane.classes.PaneBase.__setattr__')
+    r.analysed.add(sa.qualname)
+    name_p = sa.params[1]
+    adds = [c for c in walk_no_nested(sa.node) if isinstance(c, ast.Call) and isinstance(c.func, ast.Attribute) and c.func.attr == 'add'
+            and c.args and unparse(c.args[0]) == name_p]
+    for c in adds:
+        r.instances += 1
+        gov = _site_conditions(model, sa, c)
+        guards = [text for (_g, text, truth) in gov if truth and re.search(r'fields|field_names|__pane_info__', text)]
+        # syntactic: an enclosing `if` whose test mentions the fields of the class record
+        for anc in ancestors(c):
+            if isinstance(anc, ast.If) and re.search(r'fields|field_names', unparse(anc.test)) and any(x is c for s_ in anc.body for x in ast.walk(s_)):
+                guards.append(unparse(anc.test)[:80])
+        r.sample({'record update': unparse(c), 'only for fields': guards})
+        if guards:
+            r.ok()
+        else:
+            r.fail(sa.qualname, f"`{unparse(c)}` records any attribute name", sa.loc(c),
+                   "m.foo = 3 on a mutable instance puts 'foo' into the record of set fields: dict(set_only=True) lists a non-field, and a "
+                   "copy (which carries the record but only the fields) raises AttributeError from dict(set_only=True)")
+    if not adds:
+        raise AnalysisError('PaneBase.__setattr__: record update not found')
+    rp = model.func('pane.classes.PaneBase.__replace__')
+    r.analysed.add(rp.qualname)
+    r.instances += 1
+    comps = [x for x in ast.walk(rp.node) if isinstance(x, (ast.DictComp, ast.GeneratorExp, ast.ListComp)) and 'fields' in unparse(x.generators[0].iter)]
+    ok = any(re.search(r'\.init\b', unparse(c_)) for x in comps for g_ in x.generators for c_ in g_.ifs)
+    # or a loop with an `if not field.init: continue`
+    ok = ok or any(isinstance(x, ast.If) and re.search(r'\.init\b', unparse(x.test)) for x in ast.walk(rp.node))
+    r.sample({'__replace__ collects': [unparse(x)[:100] for x in comps], 'init fields only': ok})
+    if ok:
+        r.ok()
+    else:
+        r.fail(rp.qualname, "every set field is passed to the constructor, init=False ones included", rp.loc(),
+               "after m.z = 5 on an init=False field, m.__replace__(x=2) raises TypeError (unexpected keyword argument 'z')")
+    return r
+
+
+# ---------------------------------------------------------------------------- C12: the internal layout writes the key it reads
+
+
+def rule_internal_layout_writes_tag_key(model: Model, rule_id: str = 'C12-R9') -> RuleResult:
+    """Reading the internal layout pops the key ``self.tag`` from the mapping.  The writer cannot leave that key to the variant: a variant
+    that renames its fields (``rename='pascal'``: 'Kind'), excludes the tag field or gives it another output name writes no such key, and
+    the output cannot be read back.  So the writer adds ``{self.tag: tag}`` itself in the internal arm."""
+    r = RuleResult(rule_id, "in the internal layout the writer itself writes the tag under the key the reader pops", floor=1)
+    f = model.func('pane.converters.TaggedUnionConverter.into_data')
+    r.analysed.add(f.qualname)
+    me = f.params[0]
+    r.instances += 1
+    hits = []
+    for d in ast.walk(f.node):
+        if not isinstance(d, ast.Dict):
+            continue
+        if not any(k is not None and unparse(k) == f'{me}.tag' for k in d.keys):
+            continue
+        gov = _site_conditions(model, f, d)
+        internal = any((truth and re.fullmatch(rf'(False is {me}\.external|{me}\.external is False)', text))
+                       or (not truth and re.fullmatch(rf'(TRUTHY\({me}\.external\)|{me}\.external)', text)) for (_g, text, truth) in gov)
+        hits.append((unparse(d)[:70], internal))
+    # what the reader pops
+    tc = model.func('pane.converters.TaggedUnionConverter.try_convert')
+    pops = [unparse(c) for c in ast.walk(tc.node) if isinstance(c, ast.Call) and isinstance(c.func, ast.Attribute) and c.func.attr == 'pop'
+            and c.args and unparse(c.args[0]) == f'{tc.params[0]}.tag']
+    if not pops:
+        raise AnalysisError('TaggedUnionConverter.try_convert: the internal layout no longer pops self.tag')
+    r.sample({'reader': pops, 'writer displays with the key self.tag': hits})
+    if any(internal for (_t, internal) in hits):
+        r.ok()
+    else:
+        r.fail(f.qualname, "the internal layout returns the variant's own output and never adds the key self.tag", f.loc(),
+               "for variants whose tag field is renamed, excluded or has another output name the written mapping has no key `tag`: "
+               "from_data(into_data(x, T), T) raises ConvertError (expected mapping with key ...)")
     return r
